@@ -19,7 +19,7 @@ RULE = ('one real symbol per symbol size x scale {1,2,10,0.5,2.5,3.3,0.125,2.675
         '= line width, covered cells = exactly the dark modules each once, nothing outside the page, stroke colour/opacity as requested, a '
         'light colour fills the whole page; PDF: header, every xref offset of a defined object, /Length, endobj. '
         'non-trivial = document produced and rasterised')
-BOUNDS = {'quick': '12 sizes; SVG options <= 2 deviations on 2 symbols', 'thorough': 'all 44 sizes; SVG options <= 3 deviations'}
+BOUNDS = {'quick': '12 sizes x all scales x borders with 3-4 colour variants, the full colour alphabet at scales 1 and 2.5; SVG options <= 2 deviations on 2 symbols', 'thorough': 'all 44 sizes; SVG options <= 3 deviations'}
 ASSUMPTIONS = ['readers implement the operator subsets the formats define for what segno emits and reject anything else as malformed',
                'PGF has no page: coverage is compared up to one global translation', 'alpha tolerance 0.005, coordinates 1e-9 relative']
 CHUNK = 1
@@ -44,11 +44,14 @@ def symbol(v):
                       mask=(T.ORDER.index(v) + 2) % (4 if T.is_micro(v) else 8))
 
 
+QUICK = [True]
+
+
 def gen_cases(tier):
     q = tier == 'quick'
     for v in (QUICK_VERS if q else T.ORDER):
         for kind in ('svg', 'eps', 'pdf', 'tex'):
-            yield ('fmt', v, kind)
+            yield ('fmt', v, kind, tier)
     for v in ('M1', 'M2', 1):
         yield ('emptyrow', v)
     from .c01 import deviations
@@ -271,7 +274,8 @@ def svg_structure(doc, kw, acc, case):
 def run_case(case, acc):
     kind = case[0]
     if kind == 'fmt':
-        _, v, fmt = case
+        v, fmt = case[1], case[2]
+        QUICK[0] = len(case) > 3 and case[3] == 'quick'
         for scale in (1, 2, 10, 0.5, 2.5, 3.3, 0.125, 2.675, 1 / 3):
             for border in (None, 0, 1):
                 if scale in (0.125, 2.675, 1 / 3) and (border == 0 or T.size_of(v) > 25):
@@ -298,7 +302,12 @@ def run_case(case, acc):
                         variants += [{'dark': (255, 0, 0, 1)}, {'dark': (255, 0, 0, 1.0)}, {'dark': (255, 0, 0, 0)}, {'dark': (255, 0, 0, 0.0)}]
                         variants += [{'dark': d} for d in SVG_DARKS]
                         variants += [{'dark': '#00000010', 'svgversion': 2}, {'light': '#ffffff10'}, {'dark': '#0008', 'light': '#fff8', 'svgversion': 2.0}]
-                for var in variants:
+                # geometry x colour: every (scale, border) with the plain, dark-coloured and light-filled variants; the full colour
+                # alphabet on two scales with the default border (quick) - the thorough tier runs the complete product
+                full = (not QUICK[0]) or (border is None and scale in (1, 2.5))
+                for vi, var in enumerate(variants):
+                    if not full and vi > 0 and var not in ({'light': '#eee'}, {'dark': 'darkblue'}, {'dark': 'blue'}, {'dark': '#abc', 'light': 'red'}):
+                        continue
                     kw = dict(base)
                     kw.update(var)
                     one(v, fmt, kw, acc)
